@@ -1,4 +1,4 @@
-import Pcore.Model.Coll
+import Pcore.Model.SliceHeap
 /-!
 # MutableHashValue as an object (property C08)
 
@@ -10,10 +10,14 @@ embedding (`type MutableHashValue struct { Hash }`: a promoted method runs with 
 * a result with its own storage (`Keys`, `Values`, `Slice`, `Merge`, `Delete` of a key that is there, `DeleteAll` with a
   match): an immutable value, `MEntry.val`;
 * `return hv` — `Hash.Delete` of an absent key (types/hashtype.go site `Hash.Delete/r1`), `Hash.DeleteAll` without a match
-  (`/r0`), `Hash.Unique` (`/r0`), `Hash.Entries` (`/r0`): on a `MutableHashValue` the answer is the embedded `Hash` of
-  the builder itself, typed `*Hash` (no `Put` method, `Equals` treats it as an ordinary hash) — `MEntry.alias`: it reads
-  whatever the builder holds NOW.  `frozen = true` is the behaviour of a repair (answer a copy, as `freeze` does for the
-  tree constructor): the answer is a value.
+  (`/r0`), `Hash.Unique` (`/r0`), `Hash.Entries` (`/r0`).  THE CODE AS IT IS NOW (after /repo 1d333d3 "fix: Delete (absent
+  key), DeleteAll (no match), Entries and Unique of a mutable hash answered the builder's own embedded Hash"):
+  `MutableHashValue` has its own `Delete` / `DeleteAll` (through `own`: `hv.freeze()` when the Hash method answered the
+  embedded receiver) and `Entries` / `Unique` (`hv.freeze()`): the answer is a copy, a value — `frozen = true`.
+  BEFORE the fix (`frozen = false`) the promoted Hash methods answered the embedded `Hash` of the builder itself, typed
+  `*Hash` (no `Put` method, `Equals` treats it as an ordinary hash) — `MEntry.alias`: it reads whatever the builder holds
+  NOW.  Which of the two the driver runs is read off the regenerated idiom table (`mutFrozen`: the four
+  `MutableHashValue.<Method>/r0` rows exist and are fresh).
 
 Go function → Lean definition: `NewMutableHash` → `MOp.mnew`; `MutableHashValue.Put/PutAll` → `put`/`putAll` (the object's
 entries become `mergeEntries`; no new pool value: the step's entry is the marker `-`); `Hash.Delete/DeleteAll/Unique/
@@ -141,6 +145,12 @@ def mstep (frozen : Bool) (s : MState) : MOp → MState
     match s.hashRecv frozen r, s.hashRecv frozen a with
     | some (es, _), some (os, _) => s.push (.val .hsh (mergeEntries es os))
     | _, _ => s.push (.mark "~")
+
+/-- the four answers are copies: the regenerated idiom table (family sliceidioms) has a fresh row for each of
+    `MutableHashValue.Delete / DeleteAll / Entries / Unique` (without the methods there is no row: `unknown`) -/
+def mutFrozen (tbl : Table) : Bool :=
+  ["MutableHashValue.Delete/r0", "MutableHashValue.DeleteAll/r0", "MutableHashValue.Entries/r0",
+   "MutableHashValue.Unique/r0"].all fun k => tbl.find k == .mapIntoFresh || tbl.find k == .freshCopy
 
 def mrun (frozen : Bool) (ops : List MOp) : MState := ops.foldl (mstep frozen) {}
 
